@@ -2520,7 +2520,7 @@ func (f *VFSFile) pollReplicaClient(ctx context.Context) error {
 	newCommit := baseCommit
 	replaceIndex := false
 
-	maxTXID0, idx0, commit0, replace0, err := f.pollLevel(ctx, 0, pos.TXID, baseCommit)
+	maxTXID0, idx0, commit0, replace0, err := f.pollLevel(ctx, 0, pos.TXID, baseCommit, 0)
 	if err != nil {
 		return fmt.Errorf("poll L0: %w", err)
 	}
@@ -2541,7 +2541,12 @@ func (f *VFSFile) pollReplicaClient(ctx context.Context) error {
 		}
 	}
 
-	maxTXID1, idx1, commit1, replace1, err := f.pollLevel(ctx, 1, maxTXID1Snapshot, baseCommit)
+	// Level-1 files only matter where they reach beyond what level 0 has
+	// delivered (a level-0 gap bridged by a compacted file). A compacted file
+	// that ends at or before the level-0 position repeats transactions that
+	// are already applied: its pages are older than the level-0 pages merged
+	// above and its commit says nothing about the current database size.
+	maxTXID1, idx1, commit1, replace1, err := f.pollLevel(ctx, 1, maxTXID1Snapshot, baseCommit, maxTXID0)
 	if err != nil {
 		return fmt.Errorf("poll L1: %w", err)
 	}
@@ -2632,7 +2637,9 @@ func (f *VFSFile) pollReplicaClient(ctx context.Context) error {
 
 // pollLevel fetches LTX files for a specific level and returns the highest TXID seen,
 // any index updates, the latest commit value, and if the index should be replaced.
-func (f *VFSFile) pollLevel(ctx context.Context, level int, prevMaxTXID ltx.TXID, baseCommit uint32) (ltx.TXID, map[uint32]ltx.PageIndexElem, uint32, bool, error) {
+// Files whose MaxTXID does not exceed coveredTXID advance the returned TXID but
+// contribute neither pages nor a commit value.
+func (f *VFSFile) pollLevel(ctx context.Context, level int, prevMaxTXID ltx.TXID, baseCommit uint32, coveredTXID ltx.TXID) (ltx.TXID, map[uint32]ltx.PageIndexElem, uint32, bool, error) {
 	itr, err := f.client.LTXFiles(ctx, level, prevMaxTXID+1, false)
 	if err != nil {
 		return prevMaxTXID, nil, baseCommit, false, fmt.Errorf("ltx files: %w", err)
@@ -2657,6 +2664,11 @@ func (f *VFSFile) pollLevel(ctx context.Context, level int, prevMaxTXID ltx.TXID
 				break
 			}
 			return maxTXID, nil, newCommit, replaceIndex, fmt.Errorf("non-contiguous ltx file: level=%d, current=%s, next=%s-%s", level, maxTXID, info.MinTXID, info.MaxTXID)
+		}
+
+		if info.MaxTXID <= coveredTXID {
+			maxTXID = info.MaxTXID
+			continue
 		}
 
 		f.logger.Debug("new ltx file", "level", info.Level, "min", info.MinTXID, "max", info.MaxTXID)
